@@ -53,7 +53,19 @@ func checkC04(c *Ctx) {
 		c.ob("C04.R1", f.Name+"/option-loop", w.Pos(f.Decl.Pos()), false, "no range loop over the option group's options in Next")
 		return
 	}
-	okSrc := x.str(loop.X) == "$"+recvName(f)+"."+m.fStack.Name()+".Peek().nextStatement()#0.ShortcutOptionStatement.Options"
+	// "the statement just fetched" is whatever Next stores as lastStatement (fetch method or fetch written out)
+	fetched := ""
+	walkNoLit(f.Body, func(n ast.Node) bool {
+		if as, ok := n.(*ast.AssignStmt); ok && len(as.Lhs) == len(as.Rhs) {
+			for i, l := range as.Lhs {
+				if _, isSel := unparen(l).(*ast.SelectorExpr); isSel && lastField(info, l) == m.fLast && !isNilExpr(info, as.Rhs[i]) {
+					fetched = x.str(as.Rhs[i])
+				}
+			}
+		}
+		return true
+	})
+	okSrc := fetched != "" && strings.Contains(fetched, "."+m.fStack.Name()+".Peek()") && x.str(loop.X) == fetched+".ShortcutOptionStatement.Options"
 	c.ob("C04.R1", f.Name+"/option-loop", w.Pos(loop.Pos()), okSrc, map[bool]string{true: "range over the options of the statement just fetched (document order, A4)", false: "the loop ranges over " + x.str(loop.X) + ", not the options of the statement just fetched"}[okSrc])
 	// the slice appended to
 	var sliceObj types.Object
@@ -338,7 +350,64 @@ func checkC04(c *Ctx) {
 			ls = x.str(lv)
 		}
 		opt := x.str(loop.X) + "[range]"
-		okLine := strings.Contains(ls, "textElementsToMarkup("+opt+".LineStatement.Text.Elements)#0") && strings.Contains(ls, "Tags:"+opt+".LineStatement.Tags")
+		// the text: the rendering method applied to this option's elements, or — when the rendering is written out — the
+		// markup parse of a builder that is filled by a loop over this option's elements inside the option loop
+		okText := false
+		for _, rf := range w.FuncsWithParam(m.pkg, "[]*tree.LineFormattedTextElement") {
+			if rf.Decl != nil && strings.Contains(ls, "."+rf.Decl.Name.Name+"("+opt+".LineStatement.Text.Elements)#0") {
+				okText = true
+			}
+		}
+		if !okText && lv != nil {
+			var parse *ast.CallExpr
+			var find func(e ast.Node, depth int)
+			find = func(e ast.Node, depth int) {
+				ast.Inspect(e, func(q ast.Node) bool {
+					switch y := q.(type) {
+					case *ast.CallExpr:
+						if sel, ok := unparen(y.Fun).(*ast.SelectorExpr); ok && sel.Sel.Name == "ParseMarkup" && len(y.Args) == 1 {
+							parse = y
+						}
+					case *ast.Ident:
+						if v, ok := info.Uses[y].(*types.Var); ok && !v.IsField() && depth < 6 {
+							if rhs, _, _, ok := x.def(v); ok && rhs != nil {
+								find(rhs, depth+1)
+							}
+						}
+					}
+					return true
+				})
+			}
+			find(lv, 0)
+			if parse != nil {
+				if inner, ok := unparen(parse.Args[0]).(*ast.CallExpr); ok && len(inner.Args) == 0 {
+					if sel, ok := unparen(inner.Fun).(*ast.SelectorExpr); ok && sel.Sel.Name == "String" {
+						if bid := identOf(sel.X); bid != nil {
+							bobj := info.Uses[bid]
+							// a loop over this option's elements, inside the option loop, writing to that builder
+							walkNoLit(loop.Body, func(q ast.Node) bool {
+								r, ok := q.(*ast.RangeStmt)
+								if !ok || x.str(r.X) != opt+".LineStatement.Text.Elements" {
+									return true
+								}
+								walkNoLit(r.Body, func(z ast.Node) bool {
+									if call, ok := z.(*ast.CallExpr); ok {
+										if ws, ok := unparen(call.Fun).(*ast.SelectorExpr); ok && strings.HasPrefix(ws.Sel.Name, "Write") {
+											if id := identOf(ws.X); id != nil && info.Uses[id] == bobj {
+												okText = true
+											}
+										}
+									}
+									return true
+								})
+								return true
+							})
+						}
+					}
+				}
+			}
+		}
+		okLine := okText && strings.Contains(ls, "Tags:"+opt+".LineStatement.Tags")
 		c.ob("C04.R2", f.Name+"/option-line-source", w.Pos(optLit.Pos()), okLine, map[bool]string{true: "each entry shows the text and tags of the option being visited", false: "an entry's line is " + shorten(ls, 120) + ", not the rendered text and tags of the option being visited"}[okLine])
 	}
 
@@ -358,157 +427,37 @@ func checkC04(c *Ctx) {
 func c04Concat(c *Ctx, m *runnerModel) {
 	w := c.W
 	info := m.pkg.TypesInfo
-	var render *Func
-	for _, f := range w.FuncsWithParam(m.pkg, "[]*tree.LineFormattedTextElement") {
-		render = f
+	// every range loop over a line's text elements in the runner package (one in the rendering method today; one per
+	// use if the rendering is written out at its uses)
+	type rl struct {
+		f    *Func
+		loop *ast.RangeStmt
 	}
-	if render == nil {
-		c.undecided("C04.R3", "the line-rendering method was not found")
+	var loops []rl
+	for _, f := range w.FuncsIn(m.pkg) {
+		if f.Body == nil || f.Lit != nil {
+			continue
+		}
+		walkNoLit(f.Body, func(n ast.Node) bool {
+			if r, ok := n.(*ast.RangeStmt); ok {
+				if tv, ok := info.Types[r.X]; ok && typeStr(tv.Type) == "[]*tree.LineFormattedTextElement" {
+					loops = append(loops, rl{f, r})
+				}
+			}
+			return true
+		})
+	}
+	if len(loops) == 0 {
+		c.undecided("C04.R3", "no loop over a line's text elements was found in the runner package")
 		return
 	}
-	c.fn(render)
-	x := w.expander(render)
-	param := "$" + paramName(render, "[]*tree.LineFormattedTextElement")
-	var loop *ast.RangeStmt
-	walkNoLit(render.Body, func(n ast.Node) bool {
-		if r, ok := n.(*ast.RangeStmt); ok && x.str(r.X) == param {
-			loop = r
+	for li, l := range loops {
+		suffix := ""
+		if len(loops) > 1 {
+			suffix = "@" + itoa(li+1)
 		}
-		return true
-	})
-	if loop == nil {
-		c.ob("C04.R3", render.Name+"/element-loop", w.Pos(render.Decl.Pos()), false, "no range loop over the text elements")
-		return
+		c04RenderLoop(c, m, l.f, l.loop, suffix)
 	}
-	c.ob("C04.R3", render.Name+"/element-loop", w.Pos(loop.Pos()), true, "one range loop over the line's elements (ascending, A4)")
-	// the builder
-	var builder types.Object
-	walkNoLit(loop.Body, func(n ast.Node) bool {
-		if call, ok := n.(*ast.CallExpr); ok {
-			if sel, ok := unparen(call.Fun).(*ast.SelectorExpr); ok && strings.HasPrefix(sel.Sel.Name, "Write") {
-				if id := identOf(sel.X); id != nil {
-					builder = info.Uses[id]
-				}
-			}
-		}
-		return true
-	})
-	if builder == nil {
-		c.ob("C04.R3", render.Name+"/writes", w.Pos(loop.Pos()), false, "the element loop writes nothing")
-		return
-	}
-	elem := param + "["
-	idx := ""
-	if id := identOf(loop.Key); id != nil && id.Name != "_" {
-		idx = "$" + id.Name
-	}
-	elemI := elem + idx + "]"
-	elemR := param + "[range]"
-	// each write: literal text of the element, or ToString of its evaluated expression
-	nW := 0
-	walkNoLit(render.Body, func(n ast.Node) bool {
-		call, ok := n.(*ast.CallExpr)
-		if !ok {
-			return true
-		}
-		sel, ok := unparen(call.Fun).(*ast.SelectorExpr)
-		if !ok || !strings.HasPrefix(sel.Sel.Name, "Write") {
-			return true
-		}
-		if id := identOf(sel.X); id == nil || info.Uses[id] != builder {
-			return true
-		}
-		nW++
-		key := render.Name + "/write#" + itoa(nW)
-		inside := call.Pos() > loop.Body.Pos() && call.End() < loop.Body.End()
-		s := ""
-		if len(call.Args) == 1 {
-			s = x.str(call.Args[0])
-		}
-		okW := inside && (s == elemI+".Text" || s == elemR+".Text" ||
-			(strings.HasSuffix(s, "#0.ToString()") && (strings.Contains(s, "evaluateExpression("+elemI+".Expression,") || strings.Contains(s, "evaluateExpression("+elemR+".Expression,"))))
-		why := "writes " + shorten(s, 90)
-		if !inside {
-			why = "a write to the text builder outside the element loop"
-		} else if !okW {
-			why = "writes " + shorten(s, 90) + ": neither the element's literal text nor the display form of its evaluated expression"
-		}
-		c.ob("C04.R3", key, w.Pos(call.Pos()), okW, why)
-		return true
-	})
-	// at most one write per iteration
-	r := evtRule{
-		start: "idle",
-		prim: func(n ast.Node) []string {
-			switch n := n.(type) {
-			case *ast.CallExpr:
-				if sel, ok := unparen(n.Fun).(*ast.SelectorExpr); ok && strings.HasPrefix(sel.Sel.Name, "Write") {
-					if id := identOf(sel.X); id != nil && info.Uses[id] == builder {
-						return []string{"WRITE"}
-					}
-				}
-			case *pseudo:
-				if n.stmt == ast.Node(loop) && (n.kind == "BACKEDGE" || n.kind == "ENTERLOOP") {
-					return []string{"NEXT"}
-				}
-			}
-			return nil
-		},
-		step: func(st, ev string) string {
-			switch ev {
-			case "WRITE":
-				if st == "written" || st == "twice" {
-					return "twice"
-				}
-				return "written"
-			case "NEXT":
-				return "idle"
-			}
-			return ""
-		},
-		bad: func(st, ev string) string {
-			if st == "twice" && ev == "WRITE" {
-				return "an element can be written twice in one iteration"
-			}
-			return ""
-		},
-	}
-	fs := runEVT(w, render, r)
-	if len(fs) == 0 {
-		c.ob("C04.R3", render.Name+"/one-write-per-element", w.Pos(loop.Pos()), true, "at most one write per element")
-	}
-	for i, fd := range fs {
-		c.ob("C04.R3", render.Name+"/one-write-per-element#"+itoa(i+1), w.Pos(fd.pos), false, fd.msg)
-	}
-	// what is parsed is the builder's content
-	okParse := false
-	got := ""
-	walkNoLit(render.Body, func(n ast.Node) bool {
-		call, ok := n.(*ast.CallExpr)
-		if !ok || len(call.Args) != 1 {
-			return true
-		}
-		isParse := false
-		if m.fLP != nil {
-			if name, on := methodCallOn(info, call, m.fLP); on && name == "ParseMarkup" {
-				isParse = true
-			}
-		} else if sel, ok := unparen(call.Fun).(*ast.SelectorExpr); ok && sel.Sel.Name == "ParseMarkup" {
-			isParse = true
-		}
-		if isParse {
-			got = exprStr(call.Args[0])
-			if inner, ok := unparen(call.Args[0]).(*ast.CallExpr); ok && len(inner.Args) == 0 {
-				if sel, ok := unparen(inner.Fun).(*ast.SelectorExpr); ok && sel.Sel.Name == "String" {
-					if id := identOf(sel.X); id != nil && info.Uses[id] == builder {
-						okParse = true
-					}
-				}
-			}
-		}
-		return true
-	})
-	c.ob("C04.R3", render.Name+"/parsed-text", w.Pos(render.Decl.Pos()), okParse, map[bool]string{true: "the markup parser receives exactly the builder's content", false: "the markup parser receives " + got + ", not the builder's content as written element by element (text could be substituted or rewritten after concatenation)"}[okParse])
 
 	// tree builder: TEXT tokens, text callback, hashtags
 	tp := w.Pkg("internal/tree")
@@ -693,7 +642,7 @@ func c04Display(c *Ctx) {
 			// guard: n == float64(int(n))
 			var guard *ast.BinaryExpr
 			walkNoLit(f.Body, func(n ast.Node) bool {
-				if b, ok := n.(*ast.BinaryExpr); ok && b.Op == token.EQL {
+				if b, ok := n.(*ast.BinaryExpr); ok && (b.Op == token.EQL || b.Op == token.NEQ) {
 					l, rr := x.str(b.X), x.str(b.Y)
 					if (l == num && (rr == "conv:float64(conv:int("+num+"))" || rr == "conv:float64(conv:int64("+num+"))" || rr == "math.Trunc("+num+")")) || (rr == num && strings.HasPrefix(l, "conv:float64(conv:int")) {
 						guard = b
@@ -706,7 +655,12 @@ func c04Display(c *Ctx) {
 				continue
 			}
 			at := site{pos: r.Pos(), anc: r}
-			if ok, how := e.Prove(r, e.cond(keyCtx{e: e, s: &at}, guard, 0)); ok {
+			// e.cond gives the formula of the comparison as written (== or !=): the integer branch needs equality
+			var goal Formula = e.cond(keyCtx{e: e, s: &at}, guard, 0)
+			if guard.Op == token.NEQ {
+				goal = Not{goal}
+			}
+			if ok, how := e.Prove(r, goal); ok {
 				okInt, whyInt = true, "integral numbers print through an integer formatter, entailed by the integrality guard ("+how+")"
 			} else {
 				whyInt = "the integer branch is not entailed by the integrality guard: " + how
@@ -730,13 +684,13 @@ func c04Display(c *Ctx) {
 		walkNoLit(f.Body, func(n ast.Node) bool {
 			switch q := n.(type) {
 			case *ast.IfStmt:
-				if x.str(q.Cond) == "$"+recv+".Boolean" {
-					bcond = q.Cond
+				if cnd := stripNot(q.Cond); x.str(cnd) == "$"+recv+".Boolean" {
+					bcond = cnd
 				}
 			case *ast.CaseClause:
 				for _, cx := range q.List {
-					if x.str(cx) == "$"+recv+".Boolean" {
-						bcond = cx
+					if cnd := stripNot(cx); x.str(cnd) == "$"+recv+".Boolean" {
+						bcond = cnd
 					}
 				}
 			}
@@ -822,3 +776,152 @@ func shortestRoundTrip(info *types.Info, x *expander, e ast.Expr, num string) (b
 	}
 	return false, "non-integral numbers are printed by " + shorten(x.str(e), 80) + ", not by a shortest-round-trip float64 formatter"
 }
+
+// stripNot removes leading negations (the entailment engine handles polarity itself).
+func stripNot(e ast.Expr) ast.Expr {
+	for {
+		u, ok := unparen(e).(*ast.UnaryExpr)
+		if !ok || u.Op != token.NOT {
+			return unparen(e)
+		}
+		e = u.X
+	}
+}
+
+func c04RenderLoop(c *Ctx, m *runnerModel, render *Func, loop *ast.RangeStmt, suffix string) {
+	w := c.W
+	info := m.pkg.TypesInfo
+	c.fn(render)
+	x := w.expander(render)
+	param := x.str(loop.X)
+	c.ob("C04.R3", render.Name+suffix+"/element-loop", w.Pos(loop.Pos()), true, "one range loop over the line's elements (ascending, A4)")
+	// the builder
+	var builder types.Object
+	walkNoLit(loop.Body, func(n ast.Node) bool {
+		if call, ok := n.(*ast.CallExpr); ok {
+			if sel, ok := unparen(call.Fun).(*ast.SelectorExpr); ok && strings.HasPrefix(sel.Sel.Name, "Write") {
+				if id := identOf(sel.X); id != nil {
+					builder = info.Uses[id]
+				}
+			}
+		}
+		return true
+	})
+	if builder == nil {
+		c.ob("C04.R3", render.Name+suffix+"/writes", w.Pos(loop.Pos()), false, "the element loop writes nothing")
+		return
+	}
+	elem := param + "["
+	idx := ""
+	if id := identOf(loop.Key); id != nil && id.Name != "_" {
+		idx = "$" + id.Name
+	}
+	elemI := elem + idx + "]"
+	elemR := param + "[range]"
+	// each write: literal text of the element, or ToString of its evaluated expression
+	nW := 0
+	walkNoLit(render.Body, func(n ast.Node) bool {
+		call, ok := n.(*ast.CallExpr)
+		if !ok {
+			return true
+		}
+		sel, ok := unparen(call.Fun).(*ast.SelectorExpr)
+		if !ok || !strings.HasPrefix(sel.Sel.Name, "Write") {
+			return true
+		}
+		if id := identOf(sel.X); id == nil || info.Uses[id] != builder {
+			return true
+		}
+		nW++
+		key := render.Name + "/write#" + itoa(nW)
+		inside := call.Pos() > loop.Body.Pos() && call.End() < loop.Body.End()
+		s := ""
+		if len(call.Args) == 1 {
+			s = x.str(call.Args[0])
+		}
+		okW := inside && (s == elemI+".Text" || s == elemR+".Text" ||
+			(strings.HasSuffix(s, "#0.ToString()") && (strings.Contains(s, "evaluateExpression("+elemI+".Expression,") || strings.Contains(s, "evaluateExpression("+elemR+".Expression,"))))
+		why := "writes " + shorten(s, 90)
+		if !inside {
+			why = "a write to the text builder outside the element loop"
+		} else if !okW {
+			why = "writes " + shorten(s, 90) + ": neither the element's literal text nor the display form of its evaluated expression"
+		}
+		c.ob("C04.R3", key, w.Pos(call.Pos()), okW, why)
+		return true
+	})
+	// at most one write per iteration
+	r := evtRule{
+		start: "idle",
+		prim: func(n ast.Node) []string {
+			switch n := n.(type) {
+			case *ast.CallExpr:
+				if sel, ok := unparen(n.Fun).(*ast.SelectorExpr); ok && strings.HasPrefix(sel.Sel.Name, "Write") {
+					if id := identOf(sel.X); id != nil && info.Uses[id] == builder {
+						return []string{"WRITE"}
+					}
+				}
+			case *pseudo:
+				if n.stmt == ast.Node(loop) && (n.kind == "BACKEDGE" || n.kind == "ENTERLOOP") {
+					return []string{"NEXT"}
+				}
+			}
+			return nil
+		},
+		step: func(st, ev string) string {
+			switch ev {
+			case "WRITE":
+				if st == "written" || st == "twice" {
+					return "twice"
+				}
+				return "written"
+			case "NEXT":
+				return "idle"
+			}
+			return ""
+		},
+		bad: func(st, ev string) string {
+			if st == "twice" && ev == "WRITE" {
+				return "an element can be written twice in one iteration"
+			}
+			return ""
+		},
+	}
+	fs := runEVT(w, render, r)
+	if len(fs) == 0 {
+		c.ob("C04.R3", render.Name+suffix+"/one-write-per-element", w.Pos(loop.Pos()), true, "at most one write per element")
+	}
+	for i, fd := range fs {
+		c.ob("C04.R3", render.Name+suffix+"/one-write-per-element#"+itoa(i+1), w.Pos(fd.pos), false, fd.msg)
+	}
+	// what is parsed is the builder's content
+	okParse := false
+	got := ""
+	walkNoLit(render.Body, func(n ast.Node) bool {
+		call, ok := n.(*ast.CallExpr)
+		if !ok || len(call.Args) != 1 {
+			return true
+		}
+		isParse := false
+		if m.fLP != nil {
+			if name, on := methodCallOn(info, call, m.fLP); on && name == "ParseMarkup" {
+				isParse = true
+			}
+		} else if sel, ok := unparen(call.Fun).(*ast.SelectorExpr); ok && sel.Sel.Name == "ParseMarkup" {
+			isParse = true
+		}
+		if isParse {
+			got = exprStr(call.Args[0])
+			if inner, ok := unparen(call.Args[0]).(*ast.CallExpr); ok && len(inner.Args) == 0 {
+				if sel, ok := unparen(inner.Fun).(*ast.SelectorExpr); ok && sel.Sel.Name == "String" {
+					if id := identOf(sel.X); id != nil && info.Uses[id] == builder {
+						okParse = true
+					}
+				}
+			}
+		}
+		return true
+	})
+	c.ob("C04.R3", render.Name+suffix+"/parsed-text", w.Pos(render.Decl.Pos()), okParse, map[bool]string{true: "the markup parser receives exactly the builder's content", false: "the markup parser receives " + got + ", not the builder's content as written element by element (text could be substituted or rewritten after concatenation)"}[okParse])
+}
+
